@@ -3,6 +3,9 @@
 // One persistent ThresholdConditionCache receives the replayed queries (warm); the projection asks every block again with a
 // fresh cache (cold). The consensus entry point VersionBitsCache::IsActiveAfter (its own, differently warmed cache) is
 // asked alongside GetStateFor.
+// Model times are offsets: every test is replayed once per epoch E given on the command line, with model time t realised as
+// E + 600 * t in the uint32 block times and in the deployment's int64 nStartTime / nTimeout (epochs straddle 2^31, lie
+// beyond it, and put the largest block time at 2^32 - 1). The specification's answers do not depend on E (ShiftInvariant).
 #include <vfh.h>
 #include <chain.h>
 #include <consensus/params.h>
@@ -14,10 +17,10 @@ using namespace vfh;
 
 namespace {
 constexpr int DEP_BIT = 3;
-constexpr int64_t BASE_TIME = 1500000000;   // model time t is BASE_TIME + 600 * t
 constexpr int64_t STEP_TIME = 600;
+int64_t g_epoch = 1500000000;               // model time t is g_epoch + 600 * t
 
-int64_t RealTime(int64_t t) { return BASE_TIME + STEP_TIME * t; }
+int64_t RealTime(int64_t t) { return g_epoch + STEP_TIME * t; }
 
 int32_t VersionOf(const std::string& v)
 {
@@ -71,6 +74,7 @@ struct World {
         CBlockIndex* prev = p == 0 ? nullptr : blocks.at(p - 1).get();
         idx->nHeight = prev ? prev->nHeight + 1 : 0;
         idx->pprev = prev;
+        if (RealTime(t) < 0 || RealTime(t) > int64_t{0xffffffff}) throw std::runtime_error("epoch puts a block time outside uint32");
         idx->nTime = static_cast<uint32_t>(RealTime(t));
         idx->nVersion = VersionOf(v);
         idx->BuildSkip();
@@ -118,16 +122,60 @@ struct World {
 };
 } // namespace
 
+// ReplayMain of vfh.h, with every test run once per epoch (the file is parsed once; `why` names the epoch).
+int ReplayEpochs(const std::string& path, const std::vector<int64_t>& epochs)
+{
+    const std::vector<std::string> internal_keys{"cache"};
+    InstallAbortHandlers();
+    ForEachLine(path, [&](size_t n, const UniValue& t) {
+        for (const int64_t epoch : epochs) {
+            g_epoch = epoch;
+            const std::string tag = "epoch " + std::to_string(epoch) + ": ";
+            R().cur_test = n; R().cur_step = 0; R().cur_action = UniValue::VNULL;
+            auto w = std::make_unique<World>(t["init"]);
+            const UniValue& st = t["steps"];
+            for (size_t i = 0; i < st.size(); ++i) {
+                R().cur_step = i; R().cur_action = st[i]["a"];
+                std::string why;
+                UniValue res;
+                try { res = w->Apply(st[i]["a"]); }
+                catch (const std::exception& e) { why = std::string("exception: ") + e.what(); }
+                ++R().steps;
+                if (why.empty() && st[i].exists("r") && !st[i]["r"].isNull()) why = JsonDiff(st[i]["r"], res, "result");
+                if (why.empty() && st[i].exists("exp") && !st[i]["exp"].isNull()) {
+                    UniValue have;
+                    try { have = w->Project(); } catch (const std::exception& e) { why = std::string("exception in projection: ") + e.what(); }
+                    if (why.empty()) {
+                        const UniValue& exp = st[i]["exp"];
+                        std::string internal_diff;
+                        for (const auto& k : exp.getKeys()) {
+                            const bool internal = std::find(internal_keys.begin(), internal_keys.end(), k) != internal_keys.end();
+                            if (!have.exists(k)) { why = "state." + k + ": missing in implementation projection"; break; }
+                            std::string d = JsonDiff(exp[k], have[k], "state." + k);
+                            if (d.empty()) continue;
+                            if (internal) { if (internal_diff.empty()) internal_diff = d; } else { why = d; break; }
+                        }
+                        if (why.empty() && !internal_diff.empty()) { R().Deviation(st[i]["a"], tag + internal_diff, have); break; }
+                    }
+                }
+                if (!why.empty()) { R().Mismatch(st[i]["a"], tag + why); break; }
+            }
+            ++R().tests;
+        }
+    });
+    R().Summary();
+    return 0;
+}
+
 int main(int argc, char** argv)
 {
-    if (argc < 3) { std::cerr << "usage: versionbits replay <tests.ndjson>\n"; return 2; }
+    if (argc < 3) { std::cerr << "usage: versionbits replay <tests.ndjson> [epoch...]\n"; return 2; }
     const std::string mode = argv[1];
     if (mode == "replay") {
-        return ReplayMain<World>(argv[2],
-            [](const UniValue& init) { return std::make_unique<World>(init); },
-            [](World& w, const UniValue& a) { return w.Apply(a); },
-            [](World& w) { return w.Project(); },
-            /*internal_keys=*/{"cache"});
+        std::vector<int64_t> epochs;
+        for (int i = 3; i < argc; ++i) epochs.push_back(std::stoll(argv[i]));
+        if (epochs.empty()) epochs.push_back(1500000000);
+        return ReplayEpochs(argv[2], epochs);
     }
     std::cerr << "unknown mode\n";
     return 2;
